@@ -72,6 +72,12 @@ CHECKS = {
         "Meaning = public AST with columns erased. File I/O of SAVE/LOAD is emulated by Listing::load_str. Beyond length k only sampled.",
         "6 C05",
     ),
+    "C07": (
+        "exhaustive cross product of boundary strings x patterns x positions over 22 string-operation forms + proptest random strings, against character-based reference implementations written from the manual; metamorphic identities",
+        "Exploration with a reference model: the boundary matrix (12 subjects incl. 2/3/4-byte characters and 254/255-character strings, 11 patterns, 19 positions/counts) is enumerated completely for every form (41k cases); random strings over a mixed alphabet with patterns cut from the subject sample the rest. Results must be exact; out-of-domain arguments must produce a BASIC error; four metamorphic identities tie the functions to each other.",
+        "Trusted base: sem.rs string functions (Chapter 3). Open points of the manual (INSTR with negative start or beyond the end with an empty pattern, VAL of INF/NAN) are skipped.",
+        "6 C07",
+    ),
     "C08": (
         "exhaustive enumeration (all 65536 Integers; boundary-pair cross product) + proptest random operand pairs against an i64 reference",
         "Exploration with an exact arithmetic oracle: every unary operation over the whole 16-bit range and every boundary pair is enumerated completely, random pairs cover the rest of the 2^32 pair space by sampling; float-to-Integer conversion is enumerated at every k+-delta around the limits through seven conversion sites. A wrapped or silently truncated value anywhere in these spaces is seen as a wrong printed number.",
